@@ -70,6 +70,9 @@ func AmountFromString(val string) (Amount, error) {
 	}
 
 	// Parse the "major" part
+	if hasSign(x[0]) {
+		return a, fmt.Errorf("invalid major number '%v', unexpected sign", val)
+	}
 	v, err := strconv.ParseInt(x[0], 10, 64)
 	if err != nil {
 		return a, fmt.Errorf("invalid major number '%v', %w", val, err)
@@ -79,6 +82,9 @@ func AmountFromString(val string) (Amount, error) {
 
 	// Parse the decimal places (if present)
 	if l == 2 {
+		if hasSign(x[1]) {
+			return a, fmt.Errorf("invalid decimal number '%v', unexpected sign", val)
+		}
 		v2, err = strconv.ParseInt(x[1], 10, 64)
 		if err != nil {
 			return a, fmt.Errorf("invalid decimal number '%v', %w", val, err)
@@ -366,6 +372,12 @@ func unquote(value []byte) []byte {
 		value = value[1 : len(value)-1]
 	}
 	return value
+}
+
+// hasSign tells if the text starts with a sign, which strconv would accept
+// but is only allowed once, as the first character of an amount.
+func hasSign(s string) bool {
+	return s != "" && (s[0] == '+' || s[0] == '-')
 }
 
 func rescaleAmountPair(a, a2 Amount) (Amount, Amount) {
